@@ -442,6 +442,15 @@ def initial_style_bind(
                 flat_tangents: tuple[Any, ...] | list[Any],
                 **params,
             ) -> tuple[list[Any], list[Any]]:
+                if (
+                    "lowering_exception" in params
+                    and enforce_lowering_exception
+                    and any(isinstance(p, jc.Tracer) for p in flat_primals)
+                ):
+                    # Differentiating an (unseeded) sampling site while it is being
+                    # staged - inside jit, scan, seed(...) - would inline the keyless
+                    # sampler and bake its key into the staged program.
+                    raise params["lowering_exception"]
                 primals_out, tangents_out = ad.jvp(
                     lu.wrap_init(impl, params, debug_info=debug_info)
                 ).call_wrapped(flat_primals, flat_tangents)
@@ -1125,9 +1134,20 @@ def create_sample_primitive(config: SamplerConfig):
             lowering_msg, binding_context
         )
 
+        def impl(*flat_args, **params):
+            # Evaluation semantics: draw a fresh key whenever the site is evaluated.
+            # (The staged keyless sampler has its key fixed at binding time, so a
+            # cached jaxpr containing the site - jax.checkpoint, custom_jvp, ... -
+            # would otherwise replay one and the same draw.)
+            global_counter.count += 1
+            return flat_keyful_sampler(
+                jrand.key(global_counter.count), *flat_args, **params
+            )
+
         # Bind to the primitive
         return initial_style_bind(
             config.primitive,
+            impl=impl,
             keyful_sampler=config.keyful_sampler,
             flat_keyful_sampler=flat_keyful_sampler,
             sample_shape=config.sample_shape,
@@ -1325,6 +1345,40 @@ class Environment:
 ####################
 
 
+def _find_sample_site(params):
+    """Search the sub-jaxprs in an equation's params for a sampling site.
+
+    Returns the site's lowering exception (which carries its binding context), or
+    None when there is no sampling site below."""
+
+    def jaxprs(v):
+        if isinstance(v, ClosedJaxpr):
+            yield v.jaxpr
+        elif isinstance(v, Jaxpr):
+            yield v
+        elif isinstance(v, (tuple, list)):
+            for x in v:
+                yield from jaxprs(x)
+        elif hasattr(v, "jaxpr") and isinstance(getattr(v, "jaxpr"), (Jaxpr, ClosedJaxpr)):
+            yield from jaxprs(v.jaxpr)
+
+    for value in params.values():
+        for jaxpr in jaxprs(value):
+            for eqn in jaxpr.eqns:
+                primitive, inner_params = PPPrimitive.unwrap(eqn.primitive)
+                if primitive in (sample_p, adev_sample_p):
+                    return inner_params.get(
+                        "lowering_exception",
+                        LoweringSamplePrimitiveToMLIRException(
+                            "A sampling site inside a construct that `seed` does not interpret."
+                        ),
+                    )
+                found = _find_sample_site(eqn.params)
+                if found is not None:
+                    return found
+    return None
+
+
 @dataclass
 class Seed:
     """Interpreter that eliminates probabilistic primitives with explicit randomness.
@@ -1443,6 +1497,12 @@ class Seed:
                 )
 
             else:
+                # A higher-order primitive that Seed does not interpret (while_loop,
+                # remat, custom_jvp/vjp calls, nested jit, ...) would evaluate its
+                # sampling sites with hidden, unseeded randomness.
+                site_exception = _find_sample_site(eqn.params)
+                if site_exception is not None and enforce_lowering_exception:
+                    raise site_exception
                 outvals = eqn.primitive.bind(*args, **params)
 
             if not eqn.primitive.multiple_results:
